@@ -7,7 +7,45 @@
 pub fn consts() -> Vec<(&'static str, u64)> {
     let mut v = Vec::new();
     v.extend(wal::layout());
+    v.extend(header::layout());
     v
+}
+
+/// Page-zero header: the persisted set of aborted transactions.
+pub mod header {
+    use crate::storage::page::{ABORTED_BITMAP_SIZE, MAX_TRACKED_ABORTED_TXS, PageZeroHeader};
+
+    pub fn layout() -> Vec<(&'static str, u64)> {
+        vec![
+            ("aborted_bitmap_size", ABORTED_BITMAP_SIZE as u64),
+            ("max_tracked_aborted_txs", MAX_TRACKED_ABORTED_TXS as u64),
+        ]
+    }
+
+    pub struct Hdr(PageZeroHeader);
+
+    impl Hdr {
+        pub fn new() -> Self {
+            Hdr(PageZeroHeader::default())
+        }
+        pub fn mark_aborted(&mut self, txid: u64) {
+            self.0.mark_transaction_aborted(txid)
+        }
+        pub fn is_aborted(&self, txid: u64) -> bool {
+            self.0.is_transaction_aborted(txid)
+        }
+        pub fn aborted(&self) -> Vec<u64> {
+            self.0.get_aborted_transactions()
+        }
+        pub fn clear_up_to(&mut self, txid: u64) {
+            self.0.clear_aborted_up_to(txid)
+        }
+        /// What a reopen reads back: the header bytes as written to page zero.
+        pub fn reload(&self) -> Self {
+            let bytes: &[u8] = self.0.as_ref();
+            Hdr(PageZeroHeader::from(bytes))
+        }
+    }
 }
 
 /// Value codec entry points (types::varint, DataType (de)serialisation).
